@@ -55,13 +55,25 @@ func Commit(db objects.Store, rs ref.Store, id uuid.UUID) (commits map[string]*o
 	if err != nil {
 		return nil, err
 	}
+	if tx.Status == ref.TSCommitted {
+		return nil, fmt.Errorf("transaction %s is already committed", id)
+	}
 	m, err := ref.ListTransactionRefs(rs, id)
+	if err != nil {
+		return nil, err
+	}
+	// branches already committed by an earlier attempt that was interrupted
+	// before the transaction could be marked as committed
+	done, err := rs.GetTransactionLogs(id)
 	if err != nil {
 		return nil, err
 	}
 	commits = map[string]*objects.Commit{}
 	buf := bytes.NewBuffer(nil)
 	for branch, sum := range m {
+		if _, ok := done[ref.HeadRef(branch)]; ok {
+			continue
+		}
 		com, err := objects.GetCommit(db, sum)
 		if err != nil {
 			return nil, err
